@@ -409,7 +409,9 @@ def exotic_examples(chk, rng, tier, stats):
     big = [([5.5, "x"], list(range(1, 34))), (list(range(1, 41)), [5.5, 6.5]), (["s%d" % k for k in range(40)], list(range(40))), ([None], [k / 2 for k in range(1, 70)]),
            ([[k] for k in range(35)], [(k,) for k in range(3)] + list(range(33))), (list(range(33)) + ["x"], [True, False] * 17),
            # more than 64 / 100 / 128 examples of one type with mixed truthiness (a summary "one example per type" would lose it)
-           ([None, ""], list(range(100)) + [1.5]), ([""] + ["s%d" % k for k in range(80)], [None]), ([0.0] + [k + 0.5 for k in range(130)], [[]]), ([[], [1]] * 40, [0, 1] * 70)]
+           ([None, ""], list(range(100)) + [1.5]), ([""] + ["s%d" % k for k in range(80)], [None]), ([0.0] + [k + 0.5 for k in range(130)], [[]]), ([[], [1]] * 40, [0, 1] * 70),
+           # hundreds of examples with a single odd one out (a tolerance or a rounded score would pass it)
+           ([None, None], list(range(249)) + ["spam"]), (list(range(1, 400)) + [0.5], ["a", "b"]), (["x"] * 300 + [""], [1.5] * 300 + [0.0])]
     for F, T in big:
         items, status, _ = pull(list(F), list(T), 10, EVENTS_SHALLOW * 20)
         runs += 1
